@@ -765,6 +765,38 @@ func c17ListOps() []*c17op {
 			lg.L(x0, rest)
 			return ""
 		}})
+	// the source of a whole-list slice assignment stays alive and is looked at after the list
+	// was changed in place: the list must have taken the items, not the storage
+	for _, sv := range []struct {
+		name, lit string
+		val       func() interface{}
+	}{
+		{"tuple", "(2, 1, 0)", func() interface{} { return c17tup{2, 1, 0} }},
+		{"list", "[2, 1, 0]", func() interface{} { return []int{2, 1, 0} }},
+	} {
+		for _, sl := range []string{":", "0:", ":9", "-9:"} {
+			for _, mu := range []struct {
+				src string
+				res []int
+			}{{"p[0] = 1", []int{1, 1, 0}}, {"p.sort()", []int{0, 1, 2}}, {"del p[0]", []int{1, 0}}, {"p[::-1] = list(p)", []int{0, 1, 2}}, {"p[1], p[2] = p[2], p[1]", []int{2, 0, 1}}} {
+				sv, mu := sv, mu
+				add(&c17op{name: "kept-source", arg: sv.name + "[" + sl + "];" + mu.src, src: "t = " + sv.lit + "\np[" + sl + "] = t\n" + mu.src + "\nvh.log('L', t)",
+					run: func(s *c17st, lg *c17log) string {
+						s.P.L = append([]int{}, mu.res...)
+						lg.L(sv.val())
+						return ""
+					}})
+			}
+		}
+		sv := sv
+		add(&c17op{name: "kept-source", arg: sv.name + "-into-two-lists", src: "t = " + sv.lit + "\np[:] = t\nq = []\nq[:] = t\np[0] = 1\nq.sort()\nvh.log('L', t, p, q)",
+			run: func(s *c17st, lg *c17log) string {
+				s.P.L = []int{1, 1, 0}
+				c17setQ(s, []int{0, 1, 2})
+				lg.L(sv.val(), []int{1, 1, 0}, []int{0, 1, 2})
+				return ""
+			}})
+	}
 	add(&c17op{name: "iter", arg: "comp-while-append", src: "q = [x for x in p if len(p) >= 4 or p.append(x) is None]",
 		run: func(s *c17st, lg *c17log) string {
 			out := []int{}
